@@ -383,6 +383,7 @@ func (w *World) finishPending() {
 		m := w.models[len(w.models)-1].Clone()
 		m.Apply(w.pendingSpec)
 		w.models = append(w.models, m)
+		w.specs = append(w.specs, w.pendingSpec)
 	}
 	w.pendingSpec, w.pendingErr = nil, nil
 }
@@ -745,13 +746,29 @@ func copyDir(src string) (string, error) {
 	return dst, nil
 }
 
+// quiescent: no thread can run, no update is in flight, no driver call is blocked.
+func (w *World) quiescent() bool {
+	if w.inGate || w.pending != nil {
+		return false
+	}
+	for i := 0; i < w.s.NumThreads(); i++ {
+		if w.s.Enabled(w.s.Thread(i)) {
+			return false
+		}
+	}
+	return true
+}
+
 // reopen closes collection and store cleanly, reopens the directory and applies the reopen oracle (C04):
 // (1) the reopened content equals what the store itself exposed right before it was closed,
 // (2) it equals the reference content after some prefix p of the executed batches,
 // (3) p = n if no dirty section held anything and no update was in flight when Close was called.
 // The reference model is then cut back to that prefix (closing early legitimately loses the rest).
 func (w *World) reopen() {
-	drained := !moss.VerifCollLocked(w.coll) && moss.VerifDirtyEmpty(w.coll) && !w.inGate
+	// "persistence has caught up": nothing is dirty AND the system is idle - neither the merger nor the
+	// persister has anything left to do (a batch that only deletes or creates a child collection leaves no
+	// segment behind, so empty dirty sections alone do not mean that it was handed to the persister)
+	drained := !moss.VerifCollLocked(w.coll) && moss.VerifDirtyEmpty(w.coll) && w.quiescent()
 	w.closeColl()
 	if w.infra != "" {
 		return
@@ -809,4 +826,7 @@ func (w *World) reopen() {
 			Msg: fmt.Sprintf("nothing was dirty and no update was in flight at Close, yet the reopened content is that after %d of %d batches: %s", p, n, detail)})
 	}
 	w.models = w.models[:p+1]
+	if len(w.specs) > p {
+		w.specs = w.specs[:p]
+	}
 }
